@@ -298,6 +298,28 @@ class SBool:
         r = self.__eq__(o)
         return (not r) if isinstance(r, bool) else ~r
 
+    # a boolean in arithmetic counts as 1 / 0 (Python / numpy semantics: True * 2.0 == 2.0)
+    def as_number(self):
+        return SReal.mk(z3.If(self.z, z3.RealVal(1), z3.RealVal(0)))
+
+    def __mul__(self, o):
+        return self.as_number() * (o.as_number() if isinstance(o, SBool) else o)
+
+    def __rmul__(self, o):
+        return o * self.as_number()
+
+    def __add__(self, o):
+        return self.as_number() + (o.as_number() if isinstance(o, SBool) else o)
+
+    def __radd__(self, o):
+        return o + self.as_number()
+
+    def __sub__(self, o):
+        return self.as_number() - (o.as_number() if isinstance(o, SBool) else o)
+
+    def __rsub__(self, o):
+        return o - self.as_number()
+
     __hash__ = None
 
     def __repr__(self):
